@@ -27,12 +27,15 @@ def main(argv=None):
     ap.add_argument('--seed', type=int)
     ap.add_argument('--workers', type=int)
     ap.add_argument('--no-shrink', action='store_true')
+    ap.add_argument('--digests-out')
     args, rest = ap.parse_known_args(argv)
     from . import runner
     if args.replay:
         return runner.replay(args.replay)
     if args.target == 'selftest':
         from . import selftest
+        if args.runs:
+            rest = rest + ['--runs', str(args.runs)]
         return selftest.main(rest)
     if args.target not in PLAN:
         print('unknown target %r; known: %s' % (args.target, ', '.join(sorted(PLAN))), file=sys.stderr)
@@ -44,6 +47,10 @@ def main(argv=None):
         os.environ['VERIF_WORKERS'] = str(args.workers)
     eng, results, wall, known = runner.run_batch(engine, args.target, args.tier, seed, n,
                                                  do_shrink=not args.no_shrink)
+    if args.digests_out:
+        import json
+        with open(args.digests_out, 'w') as f:
+            json.dump([r.get('digest') for r in results], f)
     return runner.summarise(engine, eng, args.target, args.tier, seed, results, wall, known)
 
 
